@@ -33,11 +33,12 @@ RULE = ('one evaluation = one simulated run of a sampled workload (victim proces
         'operation; distinct = SHA-256 of the seam event log')
 RULE += ' ' + 'One cache workload in seven uses a Disk subclass that names each value file after its key (a refusal with FileExistsError counts as a no-op).'
 RULE += ' ' + 'One deque scenario in eight works on a deque of 1001-1100 items (reverse / rotate / extend); after a kill inside reverse a later process reverses twice and must get the same deque.'
+RULE += ' ' + 'One cache workload in eight starts with 300-400 KB of value files without rows (debris of earlier kills) under a 300 KB size limit.'
 ASSUMPTIONS = ['in-process kill: after the kill instant no task of the victim has any further effect and its descriptors are closed '
                '(what the OS does for SIGKILL); power loss is not modelled',
                'real-kill mode: single victim, kill instant derived from the seed (seam step or progress-handler tick)']
 PROBES = ('kill_mid_file_write', 'kill_torn_chunk', 'kill_in_txn', 'kill_between_commit_and_unlink', 'realkill', 'kill_inside_first_open',
-          'debris_unknown_file', 'bulk_partial', 'keynamed_refusal', 'deque_over_1000')
+          'debris_unknown_file', 'bulk_partial', 'keynamed_refusal', 'deque_over_1000', 'debris_of_earlier_kills')
 TECHNIQUE = 'deterministic simulation with crash injection: kill point enumerated over all seam events of sampled workloads; post-crash state checked by linearizability with the interrupted operation pending'
 LEVEL_TEXT = ('fault enumeration: workloads are sampled by seed, but within a workload every kill point at seam granularity is run '
               '(thorough tier), so for that workload the crash-point quantifier is decided completely at that granularity; the '
@@ -79,7 +80,13 @@ def gen_case(seed, tier):
         if target == 'cache':
             cfg['settings']['eviction_policy'] = rng.choice(('least-recently-stored', 'least-recently-used', 'none'))
             cfg['settings']['statistics'] = rng.choice((0, 1))
-            if rng.random() < 0.15:
+            if rng.random() < 0.12:
+                # writers killed earlier have left value files without rows (permitted debris), about as much as the size limit:
+                # they are no items and count for nothing
+                cfg['old_debris'] = rng.choice((3, 4))
+                cfg['settings']['size_limit'] = 300000
+                cfg['settings']['eviction_policy'] = rng.choice(('least-recently-stored', 'least-recently-used'))
+            elif rng.random() < 0.15:
                 # a deployment whose Disk subclass names each value file after its key
                 cfg['disk'] = 'keynamed'
                 # (a refusal inside a transaction block would have to be modelled per statement: the blocks are left to the stock Disk)
@@ -290,7 +297,7 @@ def run_lin(case):
         finish_checks(fresh, violations)
         fresh.close()
 
-    out = conc.run_and_inspect(case, inspect)
+    out = conc.run_and_inspect(case, inspect, prepare=_debris_prepare(case['cfg'], probes))
     violations = out['violations']
     base = {'digest': out.get('digest'), 'steps': out.get('steps', 0), 'switches': out.get('switches', 0),
             'fired': out.get('fired', {}), 'virtual_s': out.get('virtual_s', 0.0), 'picks': out.get('picks')}
@@ -331,6 +338,22 @@ def run_lin(case):
     pr.update(probes)
     return dict(base, violations=violations, probes=pr, nontrivial=bool(out['fired'].get('kill')),
                 outcome={'ops': len(hist), 'check1': out.get('check1')})
+
+
+def _debris_prepare(cfg, probes=None):
+    n = cfg.get('old_debris')
+    if not n:
+        return None
+
+    def prepare(world, main):
+        for i in range(n):
+            d = os.path.join(main.directory, 'de', '%02x' % i)
+            os.makedirs(d, exist_ok=True)
+            with open(os.path.join(d, '%028x.val' % (i + 1)), 'wb') as fh:
+                fh.write(b'D' * 100000)
+        if probes is not None:
+            probes['debris_of_earlier_kills'] = 1
+    return prepare
 
 
 def _uses_queue(op):
@@ -915,6 +938,8 @@ def _victim_seams(case):
             for i in range(cfg['bulk_n']):
                 main.set(i, val, expire=1 if i % 2 else 2, tag='t1')
             world.sim.advance(10)
+    if case['cfg'].get('old_debris'):
+        prepare = _debris_prepare(case['cfg'])
     if case['cfg'].get('deque_prefill'):
         npre = case['cfg']['deque_prefill']
 
